@@ -159,11 +159,15 @@ def replay_table(m, N):
     nat = native.Native("drv")
     pre = [(_s64(m.get(f"f{i}")), _s64(m.get(f"l{i}")), 1 if m.get(f"failed{i}") else 0) for i in range(N)]
     nf, nl, nfd = _s64(m.get("nf")), _s64(m.get("nl")), 1 if m.get("new_failed") else 0
-    cmd = f"tflag {N} " + " ".join(f"{a} {b} {u}" for a, b, u in pre) + f" {nf} {nl} {nfd}"
+    if m.get("flag0") and not any(u for _, _, u in pre):
+        # a set flag with no marked tablet left: reached natively by a marked tablet that a later add replaced (same range as the first tablet, or as the new one)
+        pre = ([(pre[0][0], pre[0][1], 1)] + pre) if pre else [(nf, nl, 1)]
+    cmd = f"tflag {len(pre)} " + " ".join(f"{a} {b} {u}" for a, b, u in pre) + f" {nf} {nl} {nfd}"
     got = nat.ask(cmd)
     nat.close()
     d = dict(kv.split("=") for kv in got.split()) if "=" in got else {}
-    bad = not d or (d.get("before") == "true" and d.get("after") != "true") or (nfd and d.get("after") != "true") or \
+    built = any(u for _, _, u in pre)                      # a marked tablet was added while building the table: the flag must be set from then on
+    bad = not d or (built and d.get("before") != "true") or (d.get("before") == "true" and d.get("after") != "true") or (nfd and d.get("after") != "true") or \
         (int(d.get("unresolved_after", "0")) > 0 and d.get("after") != "true")
     return native.record("C15", f"table_flag_n{N}", {"cmd": cmd, "native": got, "expected": "after=true whenever before=true, the new tablet is unresolved, or any unresolved tablet remains"}, bool(bad))
 
@@ -173,18 +177,25 @@ def replay_info(m):
     nat = native.Native("drv")
     bad = []
     for case, key in enumerate(("t0", "t1", "tnew")):
-        ops = []
+        ops, marks = [], []
         for j in range(2):
-            ops.append(f"t{j}:{_s64(m.get(f'tf{j}_{case}'))}:{_s64(m.get(f'tl{j}_{case}'))}:{1 if m.get(f'tfailed{j}_{case}') else 0}")
+            rng = f"{_s64(m.get(f'tf{j}_{case}'))}:{_s64(m.get(f'tl{j}_{case}'))}"
+            if m.get(f"tflag{j}_{case}") and not m.get(f"tfailed{j}_{case}"):
+                ops.append(f"t{j}:{rng}:1"); marks.append((f"t{j}", 1))      # set flag without a marked tablet: a marked tablet that is replaced next
+            u = 1 if m.get(f"tfailed{j}_{case}") else 0
+            ops.append(f"t{j}:{rng}:{u}"); marks.append((f"t{j}", u))
         nf, nl, nfd = _s64(m.get(f"inf_{case}")), _s64(m.get(f"inl_{case}")), 1 if m.get(f"inew_failed_{case}") else 0
-        ops.append(f"{key}:{nf}:{nl}:{nfd}")
+        ops.append(f"{key}:{nf}:{nl}:{nfd}"); marks.append((key, nfd))
         got = nat.ask("tinfo " + " ".join(ops))
-        # expectations: info flag never drops and is set once any unresolved tablet was added; the new range is in the named table; other tables keep theirs
+        # expectations: no flag ever drops; the info flag is set once any unresolved tablet was added, a table's flag once one was added to it; the new range is in
+        # the named table; other tables keep theirs
         parts = dict(kv.split("=", 1) for kv in got.split()) if "=" in got else {}
         flags = parts.get("flags", "")
-        marks = [1 if m.get(f"tfailed{j}_{case}") else 0 for j in range(2)] + [nfd]
-        want_flags = "".join("1" if any(marks[:k + 1]) else "0" for k in range(3))
+        want_flags = "".join("1" if any(u for _, u in marks[:k + 1]) else "0" for k in range(len(marks)))
         ok = flags == want_flags and f"{nf},{nl}" in parts.get(key, "")
+        for t in {t for t, _ in marks}:
+            want_t = "1" if any(u for tt, u in marks if tt == t) else "0"
+            ok = ok and parts.get(t, "").startswith(want_t + ":")
         for j in range(2):
             if f"t{j}" != key:
                 ok = ok and parts.get(f"t{j}", "").endswith(f":{_s64(m.get(f'tf{j}_{case}'))},{_s64(m.get(f'tl{j}_{case}'))}")
